@@ -401,3 +401,43 @@ func unspill(v ssa.Value) ssa.Value {
 	}
 	return v
 }
+
+// backPaths enumerates the acyclic ways of reaching block b from block stop (stop == nil: from the entry) as the
+// branch conditions taken on the way, innermost first. `a || b` guards and shared exits give several
+// alternatives where the dominator tree gives no condition at all. At most max alternatives; beyond that the single
+// alternative of dominating conditions is returned.
+func backPaths(b, stop *ssa.BasicBlock, max int) [][]Cond {
+	var out [][]Cond
+	over := false
+	onPath := map[*ssa.BasicBlock]bool{}
+	var walk func(b *ssa.BasicBlock, conds []Cond)
+	walk = func(b *ssa.BasicBlock, conds []Cond) {
+		if over {
+			return
+		}
+		if b == stop || len(b.Preds) == 0 {
+			out = append(out, append([]Cond{}, conds...))
+			if len(out) > max {
+				over = true
+			}
+			return
+		}
+		onPath[b] = true
+		for _, p := range b.Preds {
+			if onPath[p] && p != stop {
+				continue // back edge
+			}
+			next := conds
+			if ifi, ok := p.Instrs[len(p.Instrs)-1].(*ssa.If); ok && p.Succs[0] != p.Succs[1] {
+				next = append(append([]Cond{}, conds...), Cond{ifi.Cond, p.Succs[0] == b})
+			}
+			walk(p, next)
+		}
+		onPath[b] = false
+	}
+	walk(b, nil)
+	if over || len(out) == 0 {
+		return [][]Cond{pathConds(b)}
+	}
+	return out
+}
